@@ -255,7 +255,7 @@ func uni(t *rapid.T, n int, label string) int {
 
 func pick[T any](t *rapid.T, xs []T, label string) T { return xs[uni(t, len(xs), label)] }
 
-var kindOrder = []string{"publish", "delete", "reopen", "trim", "compact", "gc", "sync", "migrate", "pkg", "backup", "ro"}
+var kindOrder = []string{"publish", "delete", "reopen", "trim", "compact", "gc", "sync", "migrate", "pkg", "backup", "ro", "probe"}
 
 func drawWeighted(t *rapid.T, w map[string]int, label string) string {
 	total := 0
@@ -481,6 +481,8 @@ func (e *Env) GenOp(t *rapid.T) Op {
 		return Op{Kind: "gc", N: int64(pick(t, []int{0, 0, 1000, -1, -200}, "gc_hours"))}
 	case "sync":
 		return Op{Kind: "sync"}
+	case "probe":
+		return Op{Kind: "probe", N: int64(uni(t, 4096, "probe_at")), Variant: uni(t, 2, "probe_call")}
 	case "trim":
 		subs := []string{"offset", "count", "age"}
 		if e.Cfg.Single != 0 {
